@@ -238,6 +238,47 @@ def load_title_stores(text):
     return widths, literal
 
 
+def test_chunk_steps(body):
+    """the relative seeks of a test function whose distance is not a literal (a chunk walker's step), each described as
+    `exact:<reader>` when the distance is a plain variable assigned from one fixed-width read (`len = hio_read32l(f)`),
+    `param` when it is the function's own `start` parameter, otherwise the normalised expression text"""
+    k = body.find("{")
+    steps = []
+    for m in re.finditer(r"\bhio_seek\s*\(", body[k:]):
+        args, _ = call_args(body[k:], m.end() - 1)
+        a = [norm(x) for x in split_args(args)]
+        if len(a) != 3 or a[2] != "SEEK_CUR" or re.fullmatch(r"[\d\s*+()-]+", a[1]):
+            continue
+        e = a[1]
+        if e == "start":
+            steps.append("param")
+            continue
+        if re.fullmatch(r"\w+", e):
+            defs = re.findall(r"\b%s\s*=\s*(hio_read\w+)\s*\(\s*\w+\s*\)\s*;" % re.escape(e), body[k:])
+            if defs and len(set(defs)) == 1:
+                steps.append("exact:" + defs[0])
+                continue
+        steps.append("expr:" + e)
+    return steps
+
+
+def loader_iff_steps(text):
+    """how the IFF walker of a loader steps from chunk to chunk, one entry per libxmp_iff_new() in the file (in order,
+    paired with the following libxmp_iff_set_quirk calls up to the next libxmp_iff_load): the size reader, then
+    `+align2` / `+align4` / `+full` / `+embedded` for the quirks that change the step"""
+    out = []
+    for seg in re.split(r"\blibxmp_iff_new\s*\(", text)[1:]:
+        seg = seg.split("libxmp_iff_load", 1)[0]
+        flags = " ".join(re.findall(r"libxmp_iff_set_quirk\s*\(\s*\w+\s*,\s*([^)]*)\)", seg))
+        step = "hio_read32l" if "IFF_LITTLE_ENDIAN" in flags else "hio_read32b"
+        for f, tag in (("IFF_CHUNK_ALIGN2", "+align2"), ("IFF_CHUNK_ALIGN4", "+align4"), ("IFF_FULL_CHUNK_SIZE", "+full"),
+                       ("IFF_SKIP_EMBEDDED", "+embedded"), ("IFF_CHUNK_TRUNC4", "+trunc4")):
+            if f in flags:
+                step += tag
+        out.append(step)
+    return out
+
+
 def type_key(t):
     """same key as tools/checks/c11.py derives from a format name"""
     w = re.sub(r"[^a-z0-9 ]", "", t.lower()).split()
@@ -303,7 +344,8 @@ def generate():
                 if d not in dels:
                     dels.append(d)
             facts[mm.group(1)] = dict(file=os.path.basename(p), fn=tf, calls=test_calls(fb), writes=title_writes(fb),
-                                      load_widths=lw, load_literal=lit, delegates=dels)
+                                      load_widths=lw, load_literal=lit, delegates=dels,
+                                      chunk_steps=test_chunk_steps(fb), iff_steps=loader_iff_steps(t))
     missing = [s for s in syms if s not in facts]
     if missing:
         raise vlib.InfraError("test functions not found for %s" % missing)
@@ -472,18 +514,23 @@ def generate():
     L.append("  loadLiteral : Bool")
     L.append("  /-- loaders whose `loader` function this one calls (wrappers: UMX, MUSE) -/")
     L.append("  delegates : List String")
+    L.append("  /-- relative seeks of the test function by a non-literal distance (a chunk walker's step): `exact:<reader>` = a")
+    L.append("  variable assigned from that fixed-width read, `param` = the `start` parameter, `expr:<text>` otherwise -/")
+    L.append("  chunkSteps : List String")
+    L.append("  /-- the step of each IFF walk of the loader's file: size reader and the quirks that change the step -/")
+    L.append("  iffSteps : List String")
     L.append("")
     L.append("def testFacts : List TestFacts := [")
     rows = []
     for s in syms:
         f = facts[s]
-        rows.append("  { sym := %s, name := %s, file := %s, fn := %s,\n    calls := %s,\n    writes := %s,\n    testWidths := %s, testLiteral := %s, loadWidths := %s, loadLiteral := %s, delegates := %s }" % (
+        rows.append("  { sym := %s, name := %s, file := %s, fn := %s,\n    calls := %s,\n    writes := %s,\n    testWidths := %s, testLiteral := %s, loadWidths := %s, loadLiteral := %s, delegates := %s,\n    chunkSteps := %s, iffSteps := %s }" % (
             lean_str_list([s])[1:-1], lean_str_list([names[s]])[1:-1], lean_str_list([f["file"]])[1:-1],
             lean_str_list([f["fn"]])[1:-1], lean_str_list(f["calls"]), lean_str_list(f["writes"]),
             "[" + ", ".join(w.split(":")[1] for w in f["writes"] if re.fullmatch(r"read_title:[1-9]\d*", w)) + "]",
             "true" if f["writes"] and all(re.fullmatch(r"read_title:\d+", w) for w in f["writes"]) else "false",
             "[" + ", ".join(str(w) for w in f["load_widths"]) + "]", "true" if f["load_literal"] else "false",
-            lean_str_list(f["delegates"])))
+            lean_str_list(f["delegates"]), lean_str_list(f["chunk_steps"]), lean_str_list(f["iff_steps"])))
     L.append(",\n".join(rows) + "]")
     L.append("")
     L.append("/-- loaders named by a known title finding (known_findings.json: property C11, status known, `title:<key>`) -/")
@@ -493,7 +540,8 @@ def generate():
     changed = vlib.write_if_changed(OUT, "\n".join(L) + "\n")
     return dict(changed=changed, n_loaders=len(syms), n_pw=len(pwsyms), prepare_returns=rets,
                 pw_title_init=inits, buf_init=buf_init, wrappers_reset=wrappers_reset, pw_untitled=[pwnames[s] for s in pwsyms if s in pwuntitled], syms=syms, names=[names[s] for s in syms], pwnames=[pwnames[s] for s in pwsyms],
-                mod_magic=mod_magic, deviants=deviants)
+                mod_magic=mod_magic, deviants=deviants,
+                walkers=[names[s] for s in syms if any(c.startswith(("exact:", "expr:")) for c in facts[s]["chunk_steps"])])
 
 
 if __name__ == "__main__":
